@@ -23,7 +23,8 @@ CFG = dict(
     translators=[("lockscan", "Gen/Gen_LockEvents.v")],
     extra=["c20hooks.race_stress"],
     shard=120,
-    rule="cases = concurrent runs of: k newTempFile calls on a directory with random pre-existing names; 2-3 threads of "
+    rule="cases = concurrent runs of: k newTempFile calls on a directory whose taken names belong to files of six kinds (fresh/old, empty/with data, "
+         "directory, dangling symlink), creators writing their own payload; first uses of a fresh Binutils overlapped with a setter; concurrent ObjAddr after a FAILED first use; 2-3 threads of "
          "get/set/configure on the option store (all interleavings enumerated in Coq); k goroutines configuring DISTINCT options and "
          "reading their own option back (lost-update detector); accepted/rejected configure sequences followed by option reads, "
          "sequential (no mutex may stay held after an operation returned) and concurrent under a watchdog; files registered for deletion "
